@@ -25,9 +25,19 @@ def _pre(n, o0, o1, o2, o3, o4, o5, o6, o7):
     return ok
 
 
+def _pool_ok(*ks):
+    if not P("pool", False):
+        return True
+    ok = True
+    for k in ks:
+        ok = ok and 0 <= k <= 2
+    return ok
+
+
 def h_groupby(n: int, k0: int, k1: int, k2: int, k3: int, k4: int, k5: int, o0: int, o1: int, o2: int, o3: int, o4: int, o5: int, o6: int, o7: int):
     """
     pre: _pre(n, o0, o1, o2, o3, o4, o5, o6, o7)
+    pre: _pool_ok(k0, k1, k2, k3, k4, k5)
     post: _[0]
     post: not _[1]
     """
@@ -36,7 +46,15 @@ def h_groupby(n: int, k0: int, k1: int, k2: int, k3: int, k4: int, k5: int, o0: 
     keys = [k0, k1, k2, k3, k4, k5]
     items = []
     for i in range(n):
-        items.append(Item(keys[i], "0.%d" % i))
+        if P("pool", False):
+            # plain values incl. None (identity of small ints / None is shared, equality is ==)
+            v = None
+            for c, cand in enumerate((None, 0, 1)):
+                if keys[i] == c:
+                    v = cand
+            items.append(v)
+        else:
+            items.append(Item(keys[i], "0.%d" % i))
     keymode = P("key", "none")
     Wa, Ws = World("a"), World("s")
     D = Driver(Wa, sync_only=True)
@@ -46,6 +64,8 @@ def h_groupby(n: int, k0: int, k1: int, k2: int, k3: int, k4: int, k5: int, o0: 
 
     def keyf(it):
         # one key object per item, shared by both sides, so that identity can be compared
+        if P("pool", False):
+            return it
         if id(it) not in kcache:
             kcache[id(it)] = KeyOf(it)
         return kcache[id(it)]
@@ -126,6 +146,7 @@ def jobs(tier):
         if q:
             for n in range(0, 5):
                 J.append({"module": "c16", "fn": "h_groupby", "part": {"N": 4, "n": n, "L": 5, "G": 2, "key": key, "fl": "agen"}, "timeout": T})
+            J.append({"module": "c16", "fn": "h_groupby", "part": {"N": 3, "n": 3, "L": 3, "G": 2, "key": key, "fl": "acls", "pool": True}, "timeout": T})
         else:
             for n in range(0, 6):
                 for o1 in range(0, 4):
@@ -135,7 +156,7 @@ def jobs(tier):
 
 LEVEL = "other"
 BOUNDS = {
-    "quick": "item sequences of length 0..4 with unbounded integer keys (only equality matters: every partition into runs is a path), key absent / def / async def, every operation sequence of length 5 over {advance groupby, advance group handle 1, advance group handle 2}",
+    "quick": "(plus sequences of 3 plain values from {None, 0, 1}) item sequences of length 0..4 with unbounded integer keys (only equality matters: every partition into runs is a path), key absent / def / async def, every operation sequence of length 5 over {advance groupby, advance group handle 1, advance group handle 2}",
     "thorough": "length 0..5, operation sequences of length 7 starting with an advance, over {advance groupby, advance group handle 1..3}",
 }
 OUTSIDE = ["sequences longer than the bound, more group handles than G", "keys whose equality is not reflexive", "closing group handles (C04)"]
